@@ -301,8 +301,8 @@ def finish(pid, tier, seed, level, total: Result, t0, replay_fns, rule, assumpti
     if coverage["evaluations"] < 1 or coverage["distinct_nontrivial"] < min_nontrivial:
         harness_err.append("vacuous exploration: evaluations=%d distinct_nontrivial=%d" % (
             coverage["evaluations"], coverage["distinct_nontrivial"]))
-    if level == "model_checking" and (coverage["states"] < 1 or coverage["transitions"] < 1):
-        harness_err.append("vacuous state exploration")
+    if level == "model_checking" and (coverage["states"] < 1 or coverage["transitions"] < 1) and n_viol == 0:
+        harness_err.append("vacuous state exploration")  # (not when violations stopped the run before the state explorers were reached)
     print("%s tier=%s seed=%s evaluations=%d distinct_nontrivial=%d%s violations=%d known=%d wall=%.1fs" % (
         pid, tier, seed, coverage["evaluations"], coverage["distinct_nontrivial"],
         (" states=%d transitions=%d" % (coverage["states"], coverage["transitions"])) if level == "model_checking" else "",
